@@ -26,7 +26,23 @@ func policies() []seccomp.Policy {
 		{DefaultAction: seccomp.ActionKillProcess, Syscalls: []seccomp.SyscallGroup{{Action: seccomp.ActionLog, NamesWithCondtions: []seccomp.NameWithConditions{
 			{Name: "ioctl", Conditions: seccomp.ArgumentConditions{{Argument: 1, Operation: seccomp.GreaterOrEqual, Value: 0xffffffff00000001}}},
 			{Name: "ioctl", Conditions: seccomp.ArgumentConditions{{Argument: 2, Operation: seccomp.LessThan, Value: 7}}}}}}},
+		// what must be refused, and with the same words, on every target (the verdict is arithmetic on 32-bit
+		// indices and lookups in maps: nothing in it may depend on the width of int)
+		argIdx(5), argIdx(6), argIdx(7), argIdx(1 << 29), argIdx(1<<29 | 1), argIdx(1<<30 | 5), argIdx(1 << 31), argIdx(1<<31 | 2), argIdx(0xFFFFFFFE), argIdx(0xFFFFFFFF),
+		{DefaultAction: seccomp.Action(0x12345678), Syscalls: []seccomp.SyscallGroup{{Action: seccomp.ActionAllow, Names: []string{"read"}}}},
+		{DefaultAction: seccomp.ActionAllow, Syscalls: []seccomp.SyscallGroup{{Action: seccomp.ActionErrno, Names: []string{"read", "no_such_call"}}}},
+		{DefaultAction: seccomp.ActionAllow, Syscalls: []seccomp.SyscallGroup{{Action: seccomp.ActionErrno, Names: []string{"read", "write", "read"}}}},
+		{DefaultAction: seccomp.ActionAllow, Syscalls: []seccomp.SyscallGroup{{Action: seccomp.ActionErrno, Names: []string{"read"}, NamesWithCondtions: []seccomp.NameWithConditions{
+			{Name: "read", Conditions: seccomp.ArgumentConditions{{Argument: 0, Operation: seccomp.Equal, Value: 1}}}}}}},
+		{DefaultAction: seccomp.ActionAllow, Syscalls: []seccomp.SyscallGroup{{Action: seccomp.ActionErrno, NamesWithCondtions: []seccomp.NameWithConditions{
+			{Name: "read", Conditions: seccomp.ArgumentConditions{{Argument: 0, Operation: seccomp.Operation("Equals"), Value: 1}}}}}}},
+		{DefaultAction: seccomp.ActionAllow},
 	}
+}
+
+func argIdx(i uint32) seccomp.Policy {
+	return seccomp.Policy{DefaultAction: seccomp.ActionAllow, Syscalls: []seccomp.SyscallGroup{{Action: seccomp.ActionErrno, NamesWithCondtions: []seccomp.NameWithConditions{
+		{Name: "write", Conditions: seccomp.ArgumentConditions{{Argument: 1, Operation: seccomp.LessThan, Value: 9}, {Argument: i, Operation: seccomp.NotEqual, Value: 1 << 33}}}}}}}
 }
 
 // Lines returns one line per table and policy: "program <table> <index> <rendered program or error>".
